@@ -1345,7 +1345,12 @@ class Ev:
                 out.append(elt_fn(env))
                 return
             g = gens[0]
-            itv = self.eval(g.iter, env, mod)
+            pre = getattr(self, "_first_iter", None)
+            if pre is not None and pre[0] is g:
+                itv = pre[1]
+                self._first_iter = None
+            else:
+                itv = self.eval(g.iter, env, mod)
             if getattr(itv, "elementwise_seq", False):
                 flags.append(True)
             for item in self.iterate(itv, g.iter, mod):
@@ -1371,6 +1376,8 @@ class Ev:
             itv = self.eval(n.generators[0].iter, env, mod)
             if hasattr(itv, "sym_next") and not isinstance(itv, LazyGen):
                 return LazyGen(self, n, dict(env), mod, itv)
+            # the iterable has been evaluated (once - it may have effects, e.g. fp.readline()): hand it on
+            self._first_iter = (n.generators[0], itv)
         return self.e_ListComp(n, env, mod)
 
     def e_SetComp(self, n, env, mod):
